@@ -439,7 +439,10 @@ impl<S: WebSocket, T: TimestampProvider> Task<S, T> {
                     }
                     Some(Err(e)) => {
                         warn!("Failed to send remaining frame after mux drop: {e}");
-                        // Don't keep trying to send frames after an error
+                        // Don't keep trying to send frames after an error. Our `Sink` has
+                        // failed like it can in normal operation: the connection is broken and
+                        // nothing below may wait for the peer any more.
+                        connection_broken = true;
                         break;
                     }
                     Some(Ok(())) => (),
@@ -447,18 +450,25 @@ impl<S: WebSocket, T: TimestampProvider> Task<S, T> {
             }
         }
         // This will flush the remaining frames already queued for sending as well
-        if !connection_broken
-            && self
+        if !connection_broken {
+            match self
                 .peer_patience(self.while_reading(
                     poll_fn(|cx| self.ws.lock().poll_close_unpin(cx)),
                     &mut source_open,
                 ))
                 .await
-                .is_none()
-        {
-            warn!("Peer stopped taking our frames while closing");
-            connection_broken = true;
-        } else if connection_broken {
+            {
+                None => {
+                    warn!("Peer stopped taking our frames while closing");
+                    connection_broken = true;
+                }
+                Some(Err(e)) => {
+                    warn!("Failed to close the sink: {e}");
+                    connection_broken = true;
+                }
+                Some(Ok(())) => (),
+            }
+        } else {
             // The peer may be gone for good (keepalive timeout, transport error) with our send
             // buffer full: the `Sink` would then stay `Pending` forever. Try once and move on,
             // so that our streams and callers get to see the end of the connection.
